@@ -177,11 +177,12 @@ Definition decode (x : sx) : option (case * obs) :=
       obind (asSrv sv) (fun sv => obind (asBool pre) (fun pre => obind (asListOf (asListOf asBool) ops) (fun ops =>
       obind (asNat r) (fun r => obind (asNat d) (fun d => obind (asListOf asNat f) (fun f =>
       Some (Conc sv pre ops, OConc r d f)))))))
-  | L [I 2%Z; so; hr; ts; xe; se; io] =>
+  | L [I 2%Z; so; hr; ts; xe; se; cf; io] =>
       obind (asBool so) (fun so => obind (asHres hr) (fun hr => obind (asBool ts) (fun ts =>
-      obind (asXend xe) (fun xe => obind (asBool se) (fun se => obind (asListOf asNat io) (fun io =>
+      obind (asXend xe) (fun xe => obind (asBool se) (fun se => obind (asBool cf) (fun cf =>
+      obind (asListOf asNat io) (fun io =>
       Some (Xfer {| sock_ok := so; hres := hr; tsize_raises := ts; xend := xe; send_err_raises := se;
-                    with_sock := true; with_file := true |}, OXfer io)))))))
+                    close_file_raises := cf; with_sock := true; with_file := true |}, OXfer io))))))))
   | _ => None
   end.
 
